@@ -122,15 +122,15 @@ fn c02_o2b_signed_announce_lengths() {
 
 /// Contract of `from_dht_request` / `from_dht_response` (established by C03.O4p / C02.O2 on the
 /// real function): Ok iff lengths are right and the pre-drawn verdict for this call is true.
-pub(crate) static mut CONTRACT_OK: [bool; 3] = [false; 3];
-pub(crate) static mut CONTRACT_CALLS: usize = 0;
+pub(crate) static mut CONTRACT_OK: crate::verif_env::Ghost<[bool; 3]> = crate::verif_env::ghost(39, [false; 3]);
+pub(crate) static mut CONTRACT_CALLS: crate::verif_env::Ghost<usize> = crate::verif_env::ghost(40, 0);
 pub(crate) fn from_dht_contract(_info_hash: &Id, key: &[u8], timestamp: u64, signature: &[u8]) -> Result<SignedAnnounce, SignedAnnounceError> {
-    let i = unsafe { CONTRACT_CALLS };
-    unsafe { CONTRACT_CALLS += 1 };
+    let i = unsafe { CONTRACT_CALLS.v };
+    unsafe { CONTRACT_CALLS.v += 1 };
     if key.len() != 32 {
         return Err(SignedAnnounceError::PublicKey);
     }
-    if signature.len() != 64 || i >= 3 || !unsafe { CONTRACT_OK[i] } {
+    if signature.len() != 64 || i >= 3 || !unsafe { CONTRACT_OK.v[i] } {
         return Err(SignedAnnounceError::Signature);
     }
     let mut k = [0u8; 32];
